@@ -89,6 +89,7 @@ def denM (rows : List (Row K)) (i j : Nat) : K := denE (rows.getD i []) j
 omit [Field K] [LinearOrder K] in
 theorem Sorted.nil : Sorted ([] : List (Entry K)) := List.Pairwise.nil
 
+omit [Field K] [LinearOrder K] in
 theorem WF.nil (dim : Nat) : WF dim ([] : List (Entry K)) :=
   ⟨Sorted.nil, fun _ h => by cases h⟩
 
